@@ -406,16 +406,17 @@ pub fn run_batch(seeds: Vec<u64>, dir: &str, sink: &mut dyn FnMut(&TScenario, &T
             shuttle::Runner::new(b, shuttle_cfg()).run(body);
         }));
         if res.is_err() {
-            // the execution of `current` panicked: judge it, then go on with a new runner
+            // the execution of `current` panicked: judge it and drop the rest of the batch
             if let Some(prev) = current.lock().unwrap().take() {
                 let r = judge(&prev, true);
                 done.lock().unwrap().push((prev, r));
             }
+            seeds.lock().unwrap().clear();
         }
         for (sc, r) in done.lock().unwrap().drain(..) {
             sink(&sc, &r);
         }
-        if res.is_ok() {
+        if res.is_ok() || seeds.lock().unwrap().is_empty() {
             break;
         }
     }
@@ -491,6 +492,13 @@ fn judge(sc: &TScenario, panicked: bool) -> TResult {
     let mut shapes: Vec<(usize, usize)> = Vec::new();
     // what was printed outside the overprinted status frames
     let mut persistent: Vec<u8> = Vec::new();
+    // number of "failed: ..." lines that had been printed before the previous frame: by the
+    // time of the next frame the counts handed to the display must include them
+    // "failed: ..." lines seen so far, and how many of them must be in the counts by now:
+    // once the finish of a *later* task is on the terminal, the main loop has been through
+    // its top (progress.update) after every earlier failure
+    let mut failed_lines_now = 0usize;
+    let mut required_failed = 0usize;
     while let Some(rel) = find_cursor_up(&cap[pos..]) {
         let (start, end, n) = (pos, pos + rel.0, rel.2);
         let chunk = &cap[start..end];
@@ -511,6 +519,23 @@ fn judge(sc: &TScenario, panicked: bool) -> TResult {
         for l in &lines[..lines.len() - n] {
             persistent.extend_from_slice(l);
             persistent.push(b'\n');
+            let l2 = match find_sub(l, b"\r\x1b[J") {
+                Some(p) => &l[p + 4..],
+                None => l,
+            };
+            let is_failed_line = l2.starts_with(b"failed: ");
+            // the tag of a command that does not fail: that line is part of a *successful*
+            // task's block, hence a different task than any that failed before
+            let is_tag = l2.starts_with(b"#s")
+                && l2.ends_with(b"#")
+                && std::str::from_utf8(&l2[2..l2.len() - 1]).ok().and_then(|n| n.parse::<usize>().ok()).map(|n| sc.steps.iter().any(|s| s.id == n && !s.fail)).unwrap_or(false);
+            if is_failed_line || is_tag {
+                // a task finished: every failure printed before this line is in the counts by now
+                required_failed = failed_lines_now;
+            }
+            if is_failed_line {
+                failed_lines_now += 1;
+            }
         }
         let mut bar = frame[0];
         if let Some(p) = find_sub(bar, b"\r\x1b[J") {
@@ -522,6 +547,16 @@ fn judge(sc: &TScenario, panicked: bool) -> TResult {
                 break;
             }
             Ok((done, total, running)) => {
+                let failed_shown = std::str::from_utf8(bar).ok().and_then(|t| t.split(" done, ").nth(1)).and_then(|r| r.split_once(" failed, ")).and_then(|(f, _)| f.parse::<usize>().ok()).unwrap_or(0);
+                // descriptions are random text: only count when no description can fake a "failed: " line
+                let fakeable = sc.steps.iter().any(|s| s.desc.starts_with("failed: ") || s.chunks.iter().any(|c| c.starts_with(b"failed: ") || find_sub(c, b"\nfailed: ").is_some()));
+                // Only while the main loop is demonstrably still turning: keep-going without budget
+                // (the k-th failure returns at once, without another update) and another command
+                // still running (otherwise the loop may have ended right after the failure).
+                let _ = running;
+                if !fakeable && sc.k.is_none() && failed_shown < required_failed {
+                    v.push(("status-counts-stale".into(), format!("{} command(s) had failed before another command's completion was shown, yet the status line still says {:?}", required_failed, String::from_utf8_lossy(bar))));
+                }
                 shapes.push((done * 1000 / total.max(1), running));
                 if total >= 80 {
                     bump(&mut stats, "probe.frame_with_total_ge_80");
@@ -725,6 +760,7 @@ fn worker(out: &mut std::fs::File, base: u64, lo: u64, hi: u64, w: u64, nw: u64,
     let mut sum = Summary::default();
     let mut keys = BTreeSet::new();
     let mut nt = BTreeSet::new();
+    let mut poisoned = false;
     let mut seeds = Vec::new();
     let mut i = lo + ((w + nw - lo % nw) % nw);
     while i < hi {
@@ -756,9 +792,18 @@ fn worker(out: &mut std::fs::File, base: u64, lo: u64, hi: u64, w: u64, nw: u64,
             }
             for (c, d) in &r.violations {
                 let _ = writeln!(out, "V {}", serde_json::to_string(&VLine { seed, code: c.clone(), detail: d.clone() }).unwrap());
+                if c == "panic" || c == "hang" {
+                    poisoned = true;
+                }
             }
         };
         run_batch(chunk.iter().map(|(_, s)| *s).collect(), &dir, &mut sink);
+        if poisoned {
+            // after a panic inside a shuttle execution this process is not trusted any more:
+            // stop here (what was found is reported; the rest of this worker's seeds is not run)
+            *sum.stats.entry("probe.worker_stopped_after_panic".into()).or_default() += 1;
+            break;
+        }
     }
     sum.keys = keys.into_iter().collect();
     sum.nontrivial = nt.into_iter().collect();
@@ -863,13 +908,22 @@ fn minimise(sc: &TScenario, code: &str, dir: &str) -> TScenario {
     cur
 }
 
-fn check(tier: &str) -> i32 {
+/// oracle codes each property's tty leg reports
+fn codes_of(prop: &str) -> Option<Vec<&'static str>> {
+    match prop {
+        "C16" => Some(vec!["task-output-shown-once"]),
+        "C19" => Some(vec!["status-counts-stale", "bar-counts"]),
+        _ => None, // C20: everything
+    }
+}
+
+fn check(prop: &str, tier: &str) -> i32 {
     let t0 = std::time::Instant::now();
-    let prop = "C20";
     let quick = tier != "thorough";
     let nw = env_u64("VERIF_WORKERS", 16).max(1);
     let base = env_u64("VERIF_SEED", 1).wrapping_mul(10_000_019);
-    let runs = env_u64("VERIF_RUNS", if quick { 150_000 } else { 3_000_000 });
+    let main = prop == "C20";
+    let runs = env_u64("VERIF_TTY_RUNS", if main { if quick { 150_000 } else { 3_000_000 } } else if quick { 40_000 } else { 600_000 });
     let findings: Findings = std::fs::read_to_string(format!("{}/known_findings.json", VERIF)).ok().and_then(|s| serde_json::from_str(&s).ok()).unwrap_or_default();
     // determinism sample
     let det_n = if quick { 800 } else { 4000 };
@@ -908,9 +962,22 @@ fn check(tier: &str) -> i32 {
             None => dead.push((o.last_begin.unwrap_or(0), format!("{:?}", o.status))),
         }
     }
-    // a worker killed by a signal: n2 aborted the process (e.g. panic while panicking)
+    // a worker killed by a signal: n2 aborted the process (e.g. panic while panicking):
+    // find the seed of its 64-scenario batch (stride = number of workers) that does it
     for (begin, status) in &dead {
-        viols.push(VLine { seed: *begin, code: "process-abort".into(), detail: format!("the process running n2 died ({}) in the run of seed {}", status, begin) });
+        let mut culprit = *begin;
+        for k in 0..64u64 {
+            let sd = begin + k * nw;
+            let st = Command::new(std::env::current_exe().unwrap()).args(["one", &sd.to_string()]).stdout(Stdio::null()).stderr(Stdio::null()).status();
+            if !matches!(st, Ok(s) if s.code().is_some()) {
+                culprit = sd;
+                break;
+            }
+        }
+        viols.push(VLine { seed: culprit, code: "process-abort".into(), detail: format!("the process running n2 died ({}) in the run of seed {}", status, culprit) });
+    }
+    if let Some(codes) = codes_of(prop) {
+        viols.retain(|v| codes.contains(&v.code.as_str()));
     }
     viols.sort_by_key(|v| (v.code.clone(), v.seed));
     let mut by: BTreeMap<String, Vec<VLine>> = BTreeMap::new();
@@ -982,8 +1049,9 @@ fn check(tier: &str) -> i32 {
         "assumptions": ["seeded search over schedules and inputs: a clean batch is evidence, not proof"]
     });
     let _ = std::fs::create_dir_all(format!("{}/evidence", VERIF));
-    std::fs::write(format!("{}/evidence/{}.json", VERIF, prop), serde_json::to_string_pretty(&ev).unwrap()).unwrap();
-    println!("{} {}: {} runs, {} frames, {} commands, {} distinct traces ({} non-trivial), {} violations, {:.1}s", prop, tier, tot.runs, tot.frames, tot.commands, keys.len(), nt.len(), nviol, wall);
+    let evname = if main { format!("{}/evidence/{}.json", VERIF, prop) } else { format!("{}/evidence/{}.tty.json", VERIF, prop) };
+    std::fs::write(evname, serde_json::to_string_pretty(&ev).unwrap()).unwrap();
+    println!("{} {} (tty engine): {} runs, {} frames, {} commands, {} distinct traces ({} non-trivial), {} violations, {:.1}s", prop, tier, tot.runs, tot.frames, tot.commands, keys.len(), nt.len(), nviol, wall);
     if nviol > 0 {
         1
     } else {
@@ -994,7 +1062,17 @@ fn check(tier: &str) -> i32 {
 fn main() {
     let a: Vec<String> = std::env::args().collect();
     match a.get(1).map(|s| s.as_str()) {
-        Some("check") => std::process::exit(check(a.get(3).map(|s| s.as_str()).unwrap_or("quick"))),
+        Some("check") => std::process::exit(check(a.get(2).map(|s| s.as_str()).unwrap_or("C20"), a.get(3).map(|s| s.as_str()).unwrap_or("quick"))),
+        Some("one") => {
+            let _saved = unsafe { libc::fcntl(1, libc::F_DUPFD_CLOEXEC, 10) };
+            install_hook();
+            setup_pty();
+            let seed: u64 = a[2].parse().unwrap();
+            let dir = format!("/dev/shm/n2tty-one-{}", std::process::id());
+            let _ = run(&gen(seed), &dir);
+            let _ = std::env::set_current_dir("/");
+            let _ = std::fs::remove_dir_all(&dir);
+        }
         Some("worker") => {
             // fd 1 becomes the pty: keep the pipe to the coordinator on another descriptor
             let saved = unsafe { libc::fcntl(1, libc::F_DUPFD_CLOEXEC, 10) };
@@ -1025,7 +1103,7 @@ fn main() {
             let _ = std::fs::remove_dir_all(&dir);
             let mut hit = false;
             for (c, d) in &r.violations {
-                let _ = writeln!(out, "violation: C20 {} {}", c, d);
+                let _ = writeln!(out, "violation: {} {} {}", rp.property, c, d);
                 if *c == rp.code {
                     hit = true;
                 }
@@ -1034,7 +1112,7 @@ fn main() {
                 let _ = writeln!(out, "{}", String::from_utf8_lossy(&r.frames_text).replace('\x1b', "^["));
             }
             if hit {
-                let _ = writeln!(out, "VIOLATION property=C20 replay={}", a[2]);
+                let _ = writeln!(out, "VIOLATION property={} replay={}", rp.property, a[2]);
                 std::process::exit(1);
             }
             let _ = writeln!(out, "replay: violation {} did not reproduce", rp.code);
